@@ -409,6 +409,7 @@ def M_int_to_string(it, ctx, args, st):
     ndig = z3.If(neg, r.len - 1, r.len)
     st.pc.append(z3.And(ok, pv == v, b0 != 43, z3.Implies(first == 48, z3.And(ndig == 1, z3.Not(neg))),
                         *[z3.Implies(z3.UGE(bv(i), r.len), b == 0) for i, b in enumerate(r.bytes)]))
+    st.aux['int_texts'] = st.aux.get('int_texts', ()) + ((r, v, bits, signed),)          # ghost: r is Display of v
     yield st, r
 
 
